@@ -322,3 +322,21 @@ TEXT['C20']['text'] += (' Work of the frame-local instructions (interp_work_per_
                         'side of a word): what they do is go-ethereum\'s (identity fact), so asking go-ethereum\'s price bounds it.')
 TEXT['C03']['text'] += (' The reference journal refuses a string length above 2^64 - 32 (repair D21): the model computes the slot count as the code does, '
                         '(length + 31) / 32 in uint64 arithmetic (c09_slotcount_wraps shows the wrap the guard excludes).')
+TEXT['C09']['text'] += (' "At the moment of journaling" across frames: in the frame layer the variables are written before they are journaled, by nested '
+                        'frames with the same storage context (CALLCODE / DELEGATECALL / re-entrant CALL) that succeed or are rolled back, and S jattr '
+                        'requires every recorded value to be the word the real StateDB held when the instruction executed.')
+TEXT['C10']['text'] += (' S jattr (frame layer): from the enter/halt callbacks alone the harness computes, for every journaled change, the index of the '
+                        'innermost CALL/CREATE frame executing at that moment (refused attempts count as nodes; CALLCODE / DELEGATECALL / STATICCALL frames '
+                        'do not) and the account whose storage the code operates on, and requires the recorded map to be exactly that.')
+TEXT['C04']['text'] += (' S atomic-accounts: accounts that exist empty before the transaction (at the precompile addresses the programs call) and to which no '
+                        'frame that succeeded all the way up was addressed must survive the end-of-transaction clean-up of touched empty accounts; '
+                        'creations that succeed up to returning 0xEF code under London rules, and precompile frames failing for want of gas, are frequent '
+                        'in the generated programs.')
+TEXT['C06']['text'] += (' S gas also requires an out-of-gas join point to surface as the EVM\'s own error VALUE (vm.ErrOutOfGas), not merely as an error '
+                        'with that text: the mock runtime reports gas exhaustion with a value of its own, as the real runtime does.')
+TEXT['C17']['text'] += (' Cancellation is exercised on a loop in the top-level frame, one call down, in the init code of a nested CREATE and in a top-level '
+                        'creation, with a counting debug tracer attached: after Cancel the depth is 0, the call tree is closed and start/end, enter/exit '
+                        'callbacks are balanced.')
+TEXT['C14']['text'] += (' Payloads include valid encodings whose byte strings are not padded to whole words (every length modulo 32) and canonical encodings '
+                        'behind a few stray bytes.')
+TEXT['C19']['text'] += (' SELFDESTRUCT frames (suicide entries of the flat tracer) are leaves of the generated trees.')
